@@ -404,7 +404,7 @@ def corr_term(case, d):
     DL = core.clist([core.qi(complex(x)) for x in d["DL"]])
     pre = core.clist([core.triple(r) for r in d["pre"].tolist()])
     post = core.clist([core.triple(r) for r in d["post"].tolist()])
-    return "(bmats_ok tolb %s %s %s %s %s && d_states_ok tols %s %s %s %s)" % (q(d["tau"]), shift, ks, obsL, obsT, DT, DL, pre, post)
+    return "(bmats_ok tolb %s %s %s %s %s && d_states_ok tols %s %s %s %s && dl_even_ok tols %s)" % (q(d["tau"]), shift, ks, obsL, obsT, DT, DL, pre, post, DL)
 
 
 # ------------------------------------------------------------------ Interval tie
